@@ -303,6 +303,13 @@ func (maps *trackedMaps) processUnfiltered(ctx context.Context, ef *Filter, filt
 				v.SetMapIndex(key, f)
 
 			case fkind == reflect.Map:
+				// a nested map that a pointer tag goes through is tracked
+				// itself (see trackTaggable): it's filtered on its own, so
+				// the fields its tags classified aren't filtered again as
+				// unclassified data.
+				if _, ok := maps.getTracked(field.Pointer()); ok {
+					break
+				}
 				newMaps, err := newTrackedMaps(&tMap{value: field})
 				if err != nil {
 					return fmt.Errorf("%s: unable to filter map: %w", op, err)
